@@ -371,6 +371,8 @@ def run(ck, replay=None):
     if not ({"ConvergedOnlyIfCriteria", "FaultFlagged"} & set(reg3.violated)):
         raise MachineryError("SolverLoop no longer rejects a status inherited from an earlier run on the same object (vacuity guard)")
     darsia = import_darsia()
+    from checks.wcommon import solver_twins
+    ck.cov["twin_object_histories"] = solver_twins(ck, darsia, "C04", ck.tier == "quick")
     rng = random.Random(ck.seed)
     quick = ck.tier == "quick"
     cases = [c["case"] for c in json.load(open(replay))["cases"]] if replay else configs(rng, quick, terminals)
